@@ -14,7 +14,16 @@ def asserts(sc):
 
 
 def run(R):
+    import os
+    from vt.sqlsym import model
+    from vt.sqlsym.seqcheck import run_bmc_property
     sc_.standard_run(R, 'C06', asserts, 'completion-state-differs-from-jobs')
+    # two instance collections: the jobs of one group and update are staged on several rows (one per inst_coll and token)
+    sizes = model.Sizes(J=3, G=2, U=2, I=1, A=2, T=2, IC=2)
+    run_bmc_property(R, 'C06', sizes, n1=2, g1=1, alphabet=['schedule', 'complete', 'cancel_group'], depth=1, asserts=asserts,
+                     classify=lambda bad, vals, sc, known: sc_.KNOWN if known else 'completion-state-differs-from-jobs',
+                     extra_seqs=[('schedule', 'complete', 'schedule', 'complete'), ('u2_create', 'u2_jobs', 'u2_commit', 'schedule', 'complete')],
+                     workers=int(os.environ.get('VERIF_WORKERS', '12')))
 
 
 def replay(path):
